@@ -23,6 +23,9 @@ type c02Line struct {
 	s             *srule // structure of network lines (for the precedence reference)
 }
 
+// c02NCore is the number of leading lines of the alphabet that form its core.
+var c02NCore int
+
 func c02Alphabet() (lines []c02Line, hA, hB string) {
 	a := c01GetAlphabet()
 	hA, hB = a.hA, a.hB
@@ -59,6 +62,8 @@ func c02Alphabet() (lines []c02Line, hA, hB string) {
 		net(false, "||ads.пример.рф^", true), // shortcut windows with bytes >= 0x80
 		{text: "0.0.0.0 ads.пример.рф"},
 		net(true, ".org^", true, "important"), // short pattern: lands in the sequential table, found last
+		// ---- the lines below are the extended alphabet (explored one level less deep)
+		{text: "0.0.0.0 Tracker.Example.ORG sub.example.org"}, // a name with upper-case letters, asked for verbatim
 		net(false, p, true, "client=192.168.0.0/16|fd00::/8"),
 		net(false, p, true, "client=~127.0.0.1|~::1"),
 		net(false, p, true, "client=10.0.0.0/8|~10.0.0.1"), // a client inside both the permitted and the restricted set
@@ -66,6 +71,11 @@ func c02Alphabet() (lines []c02Line, hA, hB string) {
 		net(false, p, false, "third-party", "important"), // browser-only modifier next to a DNS-level one
 		net(true, p, false, "document", "important"),
 		net(false, p, false, "popup", "important"),
+	}
+	for i, l := range lines {
+		if strings.HasPrefix(l.text, "0.0.0.0 Tracker.Example.ORG") {
+			c02NCore = i
+		}
 	}
 	return lines, hA, hB
 }
@@ -76,7 +86,7 @@ type c02Req struct {
 }
 
 func c02Requests(hA, hB string) (qs []c02Req) {
-	for _, h := range []string{"example.org", "sub.example.org", hA, hB, "EXAMPLE.ORG", "", "ads.пример.рф"} {
+	for _, h := range []string{"example.org", "sub.example.org", hA, hB, "EXAMPLE.ORG", "", "ads.пример.рф", "Tracker.Example.ORG"} {
 		for _, t := range []uint16{1, 28, 16} {
 			for ci, cl := range []struct{ name, ip string }{{"", ""}, {"laptop", ""}, {"", "10.0.0.1"}, {"", "fd00::17"}, {"", "::1"}} {
 				for ti, tags := range [][]string{nil, {"pc"}} {
@@ -270,7 +280,15 @@ func init() {
 			depth, guard = 5, 3
 		}
 		g := statespace.BFS(model, guard, false, c.Workers, c.Deadline)
-		s := statespace.BFS(model, depth, true, c.Workers, c.Deadline)
+		// the core alphabet to the full depth, the whole alphabet one level less deep
+		core := statespace.Model{NOps: c02NCore, Run: m.run}
+		s := statespace.BFS(core, depth, true, c.Workers, c.Deadline)
+		s2 := statespace.BFS(model, depth-1, true, c.Workers, c.Deadline)
+		c.Run.Set("core_alphabet", int64(c02NCore))
+		c.Run.Set("extended_states", s2.States)
+		c.Run.Set("extended_depth_bound", int64(depth-1))
+		s.Transitions += s2.Transitions
+		s.DeadlineHit = s.DeadlineHit || s2.DeadlineHit
 		c02Corpus(c)
 		c.Run.Sample(map[string]any{"history": []string{lines[0].text, lines[4].text, lines[14].text}, "requests": len(m.reqs)})
 		c.Run.Sample(map[string]any{"history": []string{lines[19].text, lines[20].text, lines[21].text}, "note": "colliding host names share a bucket of the host table"})
